@@ -275,7 +275,13 @@ with parse_array (fuel : nat) (d : dict) (p : pointer) (st : jbst) : res (jbst *
       Ok (jadd_times min_contains cn an st, min_items - min_contains)
     | None => Ok (st, min_items)
     end;
-  if min_items =? 0 then Ok (st, root) else
+  if min_items =? 0 then
+    (* an array without any item is closed with a valid do-nothing leaf (after the fix) *)
+    match outs_of (jb_graph st) root with
+    | [] => let '(st, l) := jnoop_leaf true st in Ok (jadd root l st, root)
+    | _ => Ok (st, root)
+    end
+  else
   let '(st, all_items) := jnoop true (sfx p "_ITEMS") st in
   let st := jadd root all_items st in
   do '(st, items_node) <- match items with
